@@ -291,6 +291,14 @@ func checkC12(c *Ctx) {
 		}
 	}, "C07/ID/monotone/mem.Store.boxes:entries-persist", "C12/RACE/entries-persist", "memory store: mailbox entries are never deleted or replaced, so a message delivered while the scan removes the last expired message of that mailbox is not dropped with the entry")
 	r.Floor("C12/RACE/entries-persist", "borrowed obligations", nB, 1)
+	// the scan's removal must not write back an index it loaded before a concurrent delivery
+	// committed (decided by C09's bucket-lock rule): the fresh message would vanish with it
+	nF := c.borrow(func(c2 *Ctx) {
+		if pm2 := c2.pairing(); pm2.ok {
+			c2.c09File(pm2)
+		}
+	}, "C09/GUARD/file/(*file.Store).RemoveMessage", "C12/RACE/file-remove-atomic", "file store: RemoveMessage loads the index, removes and writes it back inside one critical section of the bucket lock")
+	r.Floor("C12/RACE/file-remove-atomic", "borrowed obligations", nF, 1)
 }
 
 func itoa(k int64) string {
